@@ -21,7 +21,7 @@ REQUIRED_COUNTERS = ["sessions", "close_injected", "state_samples_after_close", 
 SHARD_TIMEOUT = {"quick": 400, "thorough": 3000}
 
 SHAPES = ("plain", "refusing", "slow_transport", "fault_reconnect", "slow_receive_cb", "send", "after_close_calls",
-          "send_fault_read_silent")
+          "send_fault_read_silent", "send_write_error")
 
 
 def shards(tier, seed):
@@ -77,6 +77,14 @@ def session(kind, shape, step, scb):
             await asyncio.sleep(0.1)
             if sim.conns and kind != "actisense":
                 sim.conns[-1].drain_fails = 0
+                sim.spawn("send", make_send_message(kind))
+                await asyncio.sleep(0.2)
+        if shape == "send_write_error":
+            # a failing write: both the send path and the receive path notice the loss (two fault handlers, one
+            # DISCONNECTED notification)
+            await asyncio.sleep(0.1)
+            if sim.conns and kind != "actisense":
+                sim.conns[-1].fail_write_after = 0
                 sim.spawn("send", make_send_message(kind))
                 await asyncio.sleep(0.2)
         if shape == "after_close_calls":
